@@ -21,7 +21,7 @@ suite green (288/288):
   refactor produces: an off-by-one at a threshold, a dropped state guard, two
   swapped fields, one DFA cell, ...). Mutants that turned out to be equivalent
   were removed, not kept as "misses".
-* `seeded/<ID>/`, `seeded/<ID>b/`, `seeded/<ID>c/`, `seeded/<ID>d/` - four rounds of one change per property, each made by an **independent agent** that
+* `seeded/<ID>/`, `seeded/<ID>b/` ... `seeded/<ID>e/` - five rounds of one change per property, each made by an **independent agent** that
   was given only the property text and a scratch worktree (nothing from
   `/verif`), asked for a change that needs something specific to manifest (an
   interleaving, a fault at a particular point, a multi-step sequence, an unusual
@@ -96,6 +96,19 @@ quick tier, saved replays off: 10 caught at once (C01d C03d C06d C09d C10d C11d 
 | C15d | receive-side masker kept across frames when the next frame carries the same key (never rewound) | C15 exercised the maskers and the send-side policy only (C02 caught this one: its scripted peer uses one key) | receive-side job: consecutive frames with the same / other / zero key, all length classes, fragments, drawn read chunking |
 | C18d | forwarded traceback merged with `dict(traceback=tb, **kwargs)`: an error that already carries a `traceback` kwarg is lost | that key was excluded from generated kwargs | application errors carrying their own `traceback` kwarg (str or list) - which exposed a genuine defect: `str(ApplicationError)` mutated the kwargs (fixed, §5.1) |
 | C20d | final YIELD encrypted under the registration's URI pattern instead of the called procedure | exact registrations only | prefix registration with the concrete procedure in `INVOCATION.details.procedure` |
+
+A **fifth round** (`seeded/<ID>e/`; four earlier summaries given, the clause has to be quoted in `meta.json`) - first contact,
+quick tier, replays off: 13 caught at once (C01e C02e C03e C05e C06e C07e C09e C10e C14e C15e C16e C17e C19e), 7 missed:
+
+| prop | seeded change needs | gap in my check | strengthening |
+|---|---|---|---|
+| C04e | a progressive RESULT for a call without progress handler completes the call | such results were declared a router fault and not generated | generated; ignoring or rejecting is accepted, completing the call is not - which exposed a genuine defect on the unchanged tree (AttributeError for a plain `call()`, fixed §5.1) |
+| C08e | one broker feature in WELCOME no longer type-checked | role announcements were never mutated | every spec feature of every admissible role in HELLO/WELCOME x all junk values, plus feature names that collide with nothing - which exposed a genuine defect (feature named `self` raises TypeError out of `parse()`, fixed §5.1; the seeding agent had noticed it too) |
+| C11e | handler attached to its id only after the subscribe result was resolved: unsubscribing in the subscribe callback fails (Twisted) | subscribe results were only observed | behaviour "unsubscribe as soon as the subscription is confirmed" |
+| C12e | prepared do-not-compress message goes out compressed when `applyMask=False` | compression traffic always ran with `applyMask=True` | `applyMask=False` on both ends in a quarter of the C12 traffic cases |
+| C13e | asyncio RawSocket client: undefined handshake error code raises KeyError | the handshake table is complete in the thorough tier, but the quick tier's seed-selected half missed the 11 values | the 256 values with the magic first octet are always enumerated |
+| C18e | `check_types=True` wrapper turns any TypeError of the procedure into `type_check_error` | default registrations only; no TypeError-derived classes | registrations with `check_types=True`; defined and undefined classes deriving from TypeError |
+| C20e | forged encrypted ERROR surfaces as the class the caller mapped to the envelope URI | the caller never registered classes | caller maps the error URIs to classes: genuine error arrives as that class, every forgery as an encryption error |
 
 Round 4 also produced two mutants that do not terminate (C15d on the receive path, C02d under interleaving): a check
 that hangs is useless, so every case / machine step / enumeration block now runs under a CPU-time guard (150 s of CPU of
